@@ -155,6 +155,27 @@ def from_builtin(args):
     return [ev]
 
 
+def from_twodomains(k):
+    """external modules of one name declared in two domains, side by side in one design"""
+    from ..hd import h
+    import vlsirtools
+    a = h.ExternalModule(name="nfet", port_list=[h.Port(name="d"), h.Port(name="g")], desc="model", domain="fab.models",
+                         spicetype=vlsirtools.SpiceType.SUBCKT if k % 2 else vlsirtools.SpiceType.MOS if hasattr(vlsirtools.SpiceType, "MOS") else vlsirtools.SpiceType.SUBCKT)
+    b = h.ExternalModule(name="nfet", port_list=[h.Port(name="d"), h.Port(name="g"), h.Port(name="x")] if k < 2 else [h.Port(name="d"), h.Port(name="g")],
+                         desc="cell", domain="fab.cells")
+    m = h.Module(name=f"TwoDomains{k}")
+    m.s, m.t = h.Signals(2)
+    m.i0 = a()(d=m.s, g=m.t)
+    m.i1 = b()(d=m.t, g=m.s, x=m.s) if k < 2 else b()(d=m.t, g=m.s)
+    try:
+        pkg = h.to_proto(m)
+    except Exception as ex:
+        return []          # refusing such a design is fine
+    ev = {"src": "twodomains", "P": proj_package(pkg, None)}
+    ev.update(check_pkg(h, pkg))
+    return [ev]
+
+
 def from_suite(args):
     """a package some test of the repository's own test-suite exported (recorded by the export hook, harness/suite.py)"""
     src, raw = args
@@ -200,6 +221,9 @@ def run(tier, seed, replay_file=None):
         if err:
             ex_errors[name] = err
         o.cover["example_" + name] = len(out)
+    for out in pool_map(from_twodomains, [0, 1, 2, 3]):
+        evs += out
+        o.cover["twodomains"] = o.cover.get("twodomains", 0) + len(out)
     # every package the repository's own tests export (PDK-compiled designs included)
     from .. import suite
     sjobs = []
